@@ -27,9 +27,11 @@ import (
 )
 
 // C06 — route bypass and blocked types. Ops (shared with lean/HaqqModel/Driver/C06.lean):
-//   limiter <msgs>      real AuthzLimiterDecorator (constructed as in handler_options.go) on a tx with these messages
-//   rejectmsgs <msgs>   real RejectMessagesDecorator
-//   gate <exts> <msgs>  whole encoded transaction through the application's composed ante handler (DeliverTx)
+//
+//	limiter <msgs>      real AuthzLimiterDecorator (constructed as in handler_options.go) on a tx with these messages
+//	rejectmsgs <msgs>   real RejectMessagesDecorator
+//	gate <exts> <msgs>  whole encoded transaction through the application's composed ante handler (DeliverTx)
+//
 // tree syntax: E | V | O<k> | G:E | G:V | G:O<k> | X(t,t,…); exts: e,w,d,u<k> | -
 func init() {
 	Register(&Property{
